@@ -687,3 +687,4 @@ CHECKS["C08"]["required_classes"]["all"] += ["overlapping-updates-of-a-record-wi
 CHECKS["C08"]["required_classes"]["all"] += ["work-area-had-leftovers-under-the-names-a-dry-run-used"]
 CHECKS["C11"]["required_classes"]["all"] += ["free-running:hook-rounds-while-serving,relative-base-directory"]
 CHECKS["C20"]["required_classes"]["all"] += ["host-wall-clock-stepped-back-while-the-module-runs"]
+CHECKS["C17"]["required_classes"]["all"] += ["accepted-password-with-separator-byte:parts-probed"]
